@@ -90,3 +90,25 @@ def scan_assumptions(text, label):
         if n:
             out.append('%s: %d x %s' % (label, n, name))
     return out
+
+
+def run_group(cmd, cwd=None, env=None, timeout=None):
+    """subprocess.run(capture_output, text) in its own process group; on timeout the WHOLE group is killed
+    (cargo's child test binaries / cbmc would otherwise survive and keep a core busy).  -> (returncode|None, output)"""
+    import os
+    import signal
+    p = subprocess.Popen(cmd, cwd=cwd, env=env, stdout=subprocess.PIPE, stderr=subprocess.STDOUT, text=True,
+                         start_new_session=True)
+    try:
+        out, _ = p.communicate(timeout=timeout)
+        return p.returncode, out
+    except subprocess.TimeoutExpired:
+        try:
+            os.killpg(p.pid, signal.SIGKILL)
+        except OSError:
+            pass
+        try:
+            out, _ = p.communicate(timeout=30)
+        except Exception:
+            out = ''
+        return None, (out or '') + '\nTIMEOUT after %s s (process group killed)' % timeout
